@@ -8,6 +8,11 @@ set_option linter.unusedSimpArgs false
 namespace Psutil.C11
 open Spec
 
+/-- the errno values the code tells apart by name / by exception class -/
+def namedErrnos : List Errno := [.enoent, .esrch, .einval, .enametoolong, .eacces, .eperm]
+def knownErrnoNames : List String := namedErrnos.map Errno.name
+def knownClasses : List String := ["FileNotFoundError", "ProcessLookupError", "PermissionError"]
+
 /-- the configuration under which the full statements hold (every field is a translator fact;
     `littleEndian` is deliberately unconstrained: the theorems hold on both kinds of host) -/
 structure Cfg.Good (c : Cfg) : Prop where
@@ -29,6 +34,19 @@ structure Cfg.Good (c : Cfg) : Prop where
   uInode : c.uInode = 6
   /-- the host's Python can format IPv6 addresses (`Cfg.NoV6` in Proofs/C11NoV6.lean is the other case) -/
   ntop6 : c.ntop6Fails = false
+  /-- get_proc_inodes steps over a failing `readlink` exactly for the "descriptor is not there (any more)"
+      errnos of the specification (ENOENT, ESRCH, EINVAL, ENAMETOOLONG) and re-raises EACCES / EPERM … -/
+  linkSkip : namedErrnos.all (fun e => linkSkips c e == errVanished e) = true
+  /-- … and its clauses mention no other errno name and no wider class (so anything else is re-raised) -/
+  linkSkipNamed : (c.linkSkipErrnos.all knownErrnoNames.contains && c.linkSkipClasses.all knownClasses.contains) = true
+  /-- get_all_inodes `continue`s exactly when `get_proc_inodes` fails with an errno that means "process gone or
+      not ours" (ENOENT, ESRCH, EACCES, EPERM), whether it comes from `listdir` or from a re-raised `readlink` … -/
+  allSkip : namedErrnos.all (fun e => allCaught c (Exc.ofErrno e) == errUnlistable e) = true
+  /-- … and names no wider class (EIO, EMFILE, ENOMEM … propagate) -/
+  allSkipNamed : c.allSkipClasses.all knownClasses.contains = true
+  /-- `_Ipv6UnsupportedError`: raised by decode_address when `supports_ipv6()` is false, and the line is skipped -/
+  v6RaiseUnsupported : c.v6RaiseUnsupported = true
+  v6SkipLine : c.v6SkipLine = true
 
 theorem Cfg.Good.status {c : Cfg} (hg : c.Good) (st : Nat) (h1 : 1 ≤ st) (h2 : st ≤ 11) :
     c.tcpStatuses.lookup (hexW 2 st) = stateName st := by
